@@ -4,6 +4,7 @@ pub mod matching;
 pub mod notation;
 pub mod print;
 pub mod rules;
+pub mod suppress;
 pub mod tables;
 
 pub struct Ctx {
@@ -26,6 +27,11 @@ pub fn run(unit: &str, ctx: &Ctx, rng: &mut Rng, o: &mut Out) -> bool {
     "print" => print::print(ctx, rng, o),
     "jsonframe" => print::jsonframe(ctx, rng, o),
     "c16_cli" => print::cli_unit(ctx, rng, o),
+    "suppress_parse" => suppress::suppress_parse(ctx, rng, o),
+    "suppress_scan" => suppress::suppress_scan(ctx, rng, o),
+    "suppress_cli" => suppress::suppress_cli(ctx, rng, o),
+    "c14_oracle" => suppress::oracle(ctx, rng, o),
+    "c14_dump" => suppress::dump(ctx),
     "cut" => matching::cut_unit(ctx, rng, o),
     "near_miss" => matching::near_miss_unit(ctx, rng, o),
     "rules_shared" => rules::rules_unit(ctx, rng, o, true),
@@ -44,6 +50,9 @@ pub fn exec_op(op: &str, a: &serde_json::Value) -> serde_json::Value {
     return v;
   }
   if let Some(v) = print::exec(op, a) {
+    return v;
+  }
+  if let Some(v) = suppress::exec(op, a) {
     return v;
   }
   serde_json::json!({"harness_error": format!("op {op} is not replayable stand-alone")})
